@@ -746,7 +746,9 @@ def scheme_switch_frame_rule(ctx):
         except XRaise as e:
             r.fail(f.qualname, f"switch:{old}->{mname}", f.file, f.lineno, f"_Simu.{mname}", f"from {old}: raises {e}")
             continue
-        changed = sorted(k for k in set(before) | set(obj.attrs) if k not in scheme_slots and before.get(k) != (snap(obj.attrs[k]) if k in obj.attrs else None))
+        # only what existed before the call is the simulation's state: an attribute the setter creates (a record of the
+        # selection, say) changes nothing a step reads from the previous one
+        changed = sorted(k for k in before if k not in scheme_slots and before.get(k) != (snap(obj.attrs[k]) if k in obj.attrs else None))
         label = f"{old}->{getattr(kwargs.get('algo'), 'name', 'parabolic')}"
         if changed:
             k = changed[0]
